@@ -24,6 +24,18 @@ CHECKS = {
         design="DESIGN.md 5 (C04)",
         technique="TLA+ spec + TLC exhaustive; spec->code replay of every dumped state; code->spec trace validation",
     ),
+    "C05": dict(
+        engine="tla-clear",
+        text="Clear.tla models CLEAR as a state machine consuming frames (carry-over / fresh / switched TP, FP, ignored). TLC enumerates all "
+        "histories over small id alphabets and checks accounting, the switch definition, renaming invariance under every id permutation, MOTA "
+        "range and the perfect / new-id / identity-exchange scenarios; every scored history is replayed through the real CLEAR class (shuffled "
+        "result order, distance and IoU modes) comparing tp, fp, id_switch, predict_num, tp_matching_score, MOTA, MOTP; random long histories "
+        "(switches, fragmentations, swaps; two label buckets; TrackingMetricsScore totals) are validated as traces by TLC.",
+        note="ids unique within a frame; the implementation's carry-over rule (TP credited with the previous frame's score) is modelled as built; "
+        "trace scores in 1e-4 fixed point with a 1e-3 margin from the threshold",
+        design="DESIGN.md 5 (C05)",
+        technique="TLA+ spec + TLC exhaustive + simulation; spec->code replay of every scored history; code->spec trace validation",
+    ),
     "C02": dict(
         engine="tla-matching",
         text="Same specification and runs as C01; the no-blocking-pair predicates, stage order, exactness without ties (declarative Greedy2) and "
